@@ -349,7 +349,34 @@ def analyze(ctx, want):
         kinds = [(c, o) for c, o in p.conds if c[0] == "discr" and "kind" in S.vstr(c)]
         neg = [(c, o) for c, o in p.conds if S.vstr(c) in ("arg1.1", "negated") or (c[0] == "field" and c[2] == "1" and c[1] == ("sym", "arg1"))]
         if not kinds:
-            ob("C08.a", "binary-op:dispatch-on-kind", False, "Ok path without a test of the operator kind", fn.loc())
+            # the operator may also be selected inside the predicate (the closure owns the kind and tests it per call): the
+            # predicate's paths are split by the kind they are for, and each part is compared with that operator's denotation
+            clo = unwrap_ok(r)
+            negated = neg[-1][1] if neg else None
+            tt_all = eval_closure(F, clo) if clo[0] == "closure" else []
+            kconds = [c_ for cs_, r_ in tt_all for c_, o_ in cs_ if c_[0] == "discr" and "kind" in S.vstr(c_)]
+            if not kconds:
+                ob("C08.a", "binary-op:dispatch-on-kind", False, "Ok path without a test of the operator kind", fn.loc())
+                continue
+            kc = kconds[0]
+            for kname, dv in kc[2]:
+                sub = []
+                for cs_, r_ in tt_all:
+                    mine = [(c_, o_) for c_, o_ in cs_ if c_ == kc]
+                    if mine:
+                        o_ = mine[0][1]
+                        if not (o_ == dv or (isinstance(o_, tuple) and o_ and o_[0] == "otherwise" and dv not in o_[1])):
+                            continue
+                    sub.append(([(c_, o2) for c_, o2 in cs_ if c_ != kc], r_))
+                atoms, table = truth_table(sub, opaque_fn_label)
+                base = EXPECT_BIN.get(kname)
+                if atoms is None or base is None:
+                    ob("C08.b", "binary-op:%s:negated=%s" % (kname, negated), False, "truth table not computable: %s" % (table if atoms is None else "operator kind without specification"), fn.loc())
+                    continue
+                exp = (lambda e, b=base: not b(e)) if negated else base
+                ok, det = compare(atoms, table, exp, {"lhs": "P[lhs]", "rhs": "P[rhs]"})
+                seen.add((kname, negated))
+                ob("C08.b", "binary-op:%s:negated=%s" % (kname, negated), ok, "%s %s (operator selected inside the predicate): %s" % (kname, "negated" if negated else "plain", det), fn.loc())
             continue
         c, o = kinds[-1]
         kname = dict((dv, n) for n, dv in c[2]).get(o)
